@@ -107,10 +107,10 @@ class HashSystem:
                 out.append(("fr", i))
             if not self.graph:
                 out.append(("f", i))
-                if self.which:
-                    for ki in range(3):
-                        out.append(("rk", i, ki))
-                        out.append(("frk", i, ki))
+            if self.which and (not self.graph or epoch < self.max_resets):
+                for ki in range(3):
+                    out.append(("rk", i, ki))
+                    out.append(("frk", i, ki))
         if not self.graph and m[0] is not None and m[1] is None and depth >= 0:
             out.append(("k",))
         return out
